@@ -1,2 +1,591 @@
-// Package c18: check for property C18 (see /verif/DESIGN.md §3 C18).
+// Package c18: no input, program or argument makes Miller panic or hang.
+//
+// Bounded exhaustive enumeration of (1) byte/token strings x reader options for
+// every reader, (2) every built-in function/operator x every tuple of witness
+// values up to arity 3, (3) token sequences near the DSL grammar and deep
+// nesting ladders. Every case runs the real Miller code in-process
+// (vf.RunMlr) inside the crash-attributing pool. Oracle: the run ends with
+// output, or with a non-zero exit and a diagnostic; never a Go panic, a fatal
+// runtime error (worker death), an unbounded output, or a stall. Each
+// in-process violation is re-run against the plain mlr binary and the
+// binary's verdict is attached.
 package c18
+
+import (
+	"bytes"
+	"encoding/json"
+	"errors"
+	"fmt"
+	"os"
+	"os/exec"
+	"regexp"
+	"sort"
+	"strings"
+	"syscall"
+	"time"
+
+	"github.com/johnkerl/miller/v6/pkg/verifrt"
+
+	"verif/harness/vf"
+)
+
+func init() {
+	vf.Register(&vf.CheckDef{ID: "C18", Level: "model_checking", Run: run,
+		Workers: map[string]vf.WorkerFunc{
+			"readers": readersWorker,
+			"docs":    docsWorker,
+			"funcs":   funcsWorker,
+			"dsl":     dslWorker,
+			"ladders": laddersWorker,
+		}})
+}
+
+// ---------------------------------------------------------------- one case
+
+// mcase is one Miller invocation: `mlr args...` with stdin.
+type mcase struct {
+	Fam   string   `json:"fam"`   // family: reader, trunc, mut, func, stmt, dsl, chunk, ladder
+	Cfg   string   `json:"cfg"`   // configuration label (format/variant, function name, ladder shape)
+	Size  int      `json:"size"`  // size of the case (symbols / tuple weight / depth)
+	Desc  string   `json:"desc"`  // canonical short description of the varying part
+	Args  []string `json:"args"`  // mlr arguments (without argv[0])
+	Stdin string   `json:"stdin"` // bytes on standard input
+	// not serialised
+	outCap int64
+}
+
+func (m *mcase) keyTail() string {
+	return fmt.Sprintf("%05d:%s:%s:%s", m.Size, m.Fam, m.Cfg, m.Desc)
+}
+
+// shell renders a reproducer for the plain binary.
+func (m *mcase) shell() string {
+	var sb strings.Builder
+	if len(m.Stdin) > 400 {
+		fmt.Fprintf(&sb, "(%d bytes on stdin, see desc) | ", len(m.Stdin))
+	} else if m.Stdin != "" {
+		sb.WriteString("printf '")
+		for i := 0; i < len(m.Stdin); i++ {
+			b := m.Stdin[i]
+			switch {
+			case b == '\'':
+				sb.WriteString(`'\''`)
+			case b == '\\':
+				sb.WriteString(`\\`)
+			case b == '%':
+				sb.WriteString(`%%`)
+			case b == '\n':
+				sb.WriteString(`\n`)
+			case b == '\t':
+				sb.WriteString(`\t`)
+			case b == '\r':
+				sb.WriteString(`\r`)
+			case b < 0x20 || b >= 0x7f:
+				fmt.Fprintf(&sb, `\%03o`, b)
+			default:
+				sb.WriteByte(b)
+			}
+		}
+		sb.WriteString("' | ")
+	} else {
+		sb.WriteString("true | ")
+	}
+	sb.WriteString("mlr")
+	for _, a := range m.Args {
+		sb.WriteByte(' ')
+		if len(a) > 600 {
+			fmt.Fprintf(&sb, "'<%d bytes: %s...>'", len(a), shq(a[:80]))
+			continue
+		}
+		sb.WriteString(shq(a))
+	}
+	return sb.String()
+}
+
+var shSafe = regexp.MustCompile(`^[A-Za-z0-9_./:=,+-]+$`)
+
+func shq(s string) string {
+	if shSafe.MatchString(s) {
+		return s
+	}
+	if !strings.ContainsAny(s, "\n\r\t") && isPrintable(s) {
+		return "'" + strings.ReplaceAll(s, "'", `'\''`) + "'"
+	}
+	// $'...' quoting for control bytes
+	var sb strings.Builder
+	sb.WriteString("$'")
+	for i := 0; i < len(s); i++ {
+		b := s[i]
+		switch {
+		case b == '\'':
+			sb.WriteString(`\'`)
+		case b == '\\':
+			sb.WriteString(`\\`)
+		case b == '\n':
+			sb.WriteString(`\n`)
+		case b == '\t':
+			sb.WriteString(`\t`)
+		case b == '\r':
+			sb.WriteString(`\r`)
+		case b < 0x20 || b >= 0x7f:
+			fmt.Fprintf(&sb, `\x%02x`, b)
+		default:
+			sb.WriteByte(b)
+		}
+	}
+	sb.WriteString("'")
+	return sb.String()
+}
+
+func isPrintable(s string) bool {
+	for i := 0; i < len(s); i++ {
+		if s[i] < 0x20 || s[i] >= 0x7f {
+			return false
+		}
+	}
+	return true
+}
+
+// vis renders bytes for keys: printable ASCII as is, the rest escaped.
+func vis(s string) string {
+	var sb strings.Builder
+	for i := 0; i < len(s); i++ {
+		b := s[i]
+		switch {
+		case b == '\n':
+			sb.WriteString(`\n`)
+		case b == '\r':
+			sb.WriteString(`\r`)
+		case b == '\t':
+			sb.WriteString(`\t`)
+		case b == '\\':
+			sb.WriteString(`\\`)
+		case b < 0x20 || b >= 0x7f:
+			fmt.Fprintf(&sb, `\x%02x`, b)
+		default:
+			sb.WriteByte(b)
+		}
+	}
+	return sb.String()
+}
+
+// capWriter bounds what a run may print: inputs are tiny, so an output beyond
+// the cap means Miller is looping. The write error also stops the run.
+type capWriter struct {
+	buf  bytes.Buffer
+	n    int64
+	max  int64
+	over bool
+}
+
+var errRunaway = errors.New("verif: output cap exceeded")
+
+func (c *capWriter) Write(p []byte) (int, error) {
+	c.n += int64(len(p))
+	if c.n > c.max {
+		c.over = true
+		return 0, errRunaway
+	}
+	c.buf.Write(p)
+	return len(p), nil
+}
+func (c *capWriter) Close() error { return nil }
+
+// runner holds per-worker state.
+type runner struct {
+	w        *vf.Worker
+	confirms map[string]int // plain-binary confirmations spent per violation group
+	only     bool
+}
+
+func newRunner(w *vf.Worker) *runner {
+	verifrt.TrapExits(true)
+	vf.CaptureStderr()
+	// A runaway allocation must end this worker long before it hurts the machine.
+	var lim syscall.Rlimit
+	lim.Cur, lim.Max = 10<<30, 10<<30
+	syscall.Setrlimit(syscall.RLIMIT_AS, &lim)
+	return &runner{w: w, confirms: map[string]int{}, only: w.Only >= 0}
+}
+
+var (
+	iceRe      = regexp.MustCompile(`Internal coding error detected at file (\S+) line (\d+)`)
+	mlrLineRe  = regexp.MustCompile(`(?m)^mlr[: ]`)
+	frameRe    = regexp.MustCompile(`(?m)^\s+(\S+/pkg/\S+\.go|\S+/v6/\S+\.go|\S+\.go):(\d+)`)
+	millerFrRe = regexp.MustCompile(`(?m)^\s+\S*(?:/repo|miller/v6|/wt-[^/]+)/(pkg/\S+\.go):(\d+)`)
+	anyGoFrRe  = regexp.MustCompile(`(?m)^\s+(\S+\.go):(\d+)`)
+)
+
+// panicSite extracts the first Miller source frame below the panic from a
+// stack trace ("pkg/input/record_reader_pprint.go:582"); falls back to the
+// first non-runtime frame.
+func panicSite(stack string) string {
+	// skip the frames of the recover/Try machinery: start after the last "panic(" line
+	if i := strings.LastIndex(stack, "\npanic("); i >= 0 {
+		stack = stack[i+1:]
+	}
+	if m := millerFrRe.FindStringSubmatch(stack); m != nil && !strings.Contains(m[1], "verifrt") {
+		return m[1] + ":" + m[2]
+	}
+	for _, m := range millerFrRe.FindAllStringSubmatch(stack, -1) {
+		if !strings.Contains(m[1], "verifrt") {
+			return m[1] + ":" + m[2]
+		}
+	}
+	for _, m := range anyGoFrRe.FindAllStringSubmatch(stack, -1) {
+		if strings.Contains(m[1], "/runtime/") || strings.Contains(m[1], "verifrt") || strings.Contains(m[1], "/vf/") {
+			continue
+		}
+		p := m[1]
+		if i := strings.LastIndex(p, "/pkg/mod/"); i >= 0 {
+			p = p[i+9:]
+		} else if i := strings.LastIndex(p, "/src/"); i >= 0 {
+			p = "go:" + p[i+5:]
+		}
+		return p + ":" + m[2]
+	}
+	return "unknown-site"
+}
+
+func short(s string, n int) string {
+	if len(s) > n {
+		return s[:n] + "..."
+	}
+	return s
+}
+
+// Outcome classes (evidence sets).
+const (
+	ocOK       = "exit0"
+	ocMlrErr   = "mlr-error"
+	ocBareErr  = "nonzero-exit-without-mlr-prefix"
+	ocICE      = "internal-coding-error"
+	ocPanic    = "PANIC"
+	ocRunaway  = "RUNAWAY-OUTPUT"
+	ocSilentNZ = "nonzero-exit-empty-stderr"
+)
+
+type outcome struct {
+	class  string
+	stdout string
+	stderr string
+	exit   int
+}
+
+// run executes one case in-process and applies the oracle.
+func (x *runner) run(m *mcase) outcome {
+	if x.only {
+		x.w.Label(func() string { b, _ := json.Marshal(m); return string(b) })
+	}
+	max := m.outCap
+	if max == 0 {
+		max = 4 << 20
+	}
+	cw := &capWriter{max: max}
+	stdin := m.Stdin
+	r := vf.RunMlr(m.Args, vf.MlrOpts{Stdin: &stdin, Out: cw})
+	x.w.Eval(1)
+	x.w.Heartbeat()
+	oc := outcome{stdout: cw.buf.String(), stderr: r.Stderr, exit: r.Exit}
+	replay := func() map[string]any {
+		return map[string]any{"family": m.Fam, "config": m.Cfg, "args": m.Args, "stdin": short(m.Stdin, 2000), "stdin_len": len(m.Stdin), "shell": m.shell()}
+	}
+	switch {
+	case r.Panic != "":
+		oc.class = ocPanic
+		site := panicSite(r.Stack)
+		g := "panic[" + site + "]"
+		rp := replay()
+		rp["panic"] = r.Panic
+		rp["stack"] = short(r.Stack, 3000)
+		what := fmt.Sprintf("Go panic %q at %s; reproduce: %s", short(r.Panic, 200), site, m.shell())
+		x.confirm(g, m, rp, &what)
+		x.w.Violation(g+":"+m.keyTail(), what, rp)
+	case cw.over:
+		oc.class = ocRunaway
+		g := "runaway-output[" + m.Fam + "/" + cfgHead(m.Cfg) + "]"
+		rp := replay()
+		what := fmt.Sprintf("output exceeded %d bytes on a %d-byte input (endless loop); reproduce: %s", max, len(m.Stdin), m.shell())
+		x.confirm(g, m, rp, &what)
+		x.w.Violation(g+":"+m.keyTail(), what, rp)
+	case r.Exit != 0:
+		if mm := iceRe.FindStringSubmatch(r.Stderr); mm != nil {
+			oc.class = ocICE
+			g := "internal-coding-error[" + mm[1] + ":" + mm[2] + "]"
+			rp := replay()
+			rp["stderr"] = short(r.Stderr, 600)
+			what := fmt.Sprintf("aborts with %q (no `mlr:` error); reproduce: %s", strings.TrimSpace(short(r.Stderr, 160)), m.shell())
+			x.confirm(g, m, rp, &what)
+			x.w.Violation(g+":"+m.keyTail(), what, rp)
+		} else if mlrLineRe.MatchString(r.Stderr) {
+			oc.class = ocMlrErr
+		} else if strings.TrimSpace(r.Stderr) == "" {
+			oc.class = ocSilentNZ
+		} else {
+			oc.class = ocBareErr
+		}
+	default:
+		oc.class = ocOK
+	}
+	return oc
+}
+
+func cfgHead(cfg string) string {
+	if i := strings.IndexAny(cfg, "/ "); i > 0 {
+		return cfg[:i]
+	}
+	return cfg
+}
+
+// confirm re-runs a violating case against the plain mlr binary (at most a few
+// times per violation group and worker) and records the binary's verdict.
+func (x *runner) confirm(group string, m *mcase, rp map[string]any, what *string) {
+	if x.confirms[group] >= 2 {
+		return
+	}
+	x.confirms[group]++
+	v := plainVerdict(m, 60*time.Second)
+	rp["plain_binary"] = v
+	*what += " || plain binary: " + v
+	x.w.Heartbeat()
+}
+
+// plainVerdict runs the case with the uninstrumented binary.
+func plainVerdict(m *mcase, timeout time.Duration) string {
+	bin := vf.MlrBin()
+	if bin == "" {
+		return "(no plain binary available)"
+	}
+	cmd := exec.Command(bin, m.Args...)
+	cmd.Stdin = strings.NewReader(m.Stdin)
+	var so, se limitedBuf
+	so.max, se.max = 1<<16, 1<<16
+	cmd.Stdout, cmd.Stderr = &so, &se
+	cmd.Env = append(os.Environ(), "MLRRC=__none__", "GOTRACEBACK=single", "GOMEMLIMIT=6GiB")
+	cmd.SysProcAttr = &syscall.SysProcAttr{Setpgid: true}
+	dir, err := os.MkdirTemp("/dev/shm", "verif-c18-cwd-")
+	if err == nil {
+		cmd.Dir = dir
+		defer os.RemoveAll(dir)
+	}
+	if err := cmd.Start(); err != nil {
+		return "(cannot start: " + err.Error() + ")"
+	}
+	done := make(chan error, 1)
+	go func() { done <- cmd.Wait() }()
+	var werr error
+	timedOut := false
+	select {
+	case werr = <-done:
+	case <-time.After(timeout):
+		timedOut = true
+		syscall.Kill(-cmd.Process.Pid, syscall.SIGKILL)
+		werr = <-done
+	}
+	cpu := time.Duration(0)
+	if cmd.ProcessState != nil {
+		cpu = cmd.ProcessState.UserTime() + cmd.ProcessState.SystemTime()
+	}
+	if timedOut {
+		return fmt.Sprintf("STILL RUNNING after %s (cpu %.1fs, %d bytes of output so far)", timeout, cpu.Seconds(), so.n)
+	}
+	code := 0
+	if ee, ok := werr.(*exec.ExitError); ok {
+		code = ee.ExitCode()
+	} else if werr != nil {
+		return "(wait: " + werr.Error() + ")"
+	}
+	st := se.String()
+	tag := "no-crash"
+	switch {
+	case strings.Contains(st, "fatal error:"):
+		tag = "FATAL"
+	case strings.Contains(st, "panic:") || strings.Contains(st, "goroutine "):
+		tag = "PANIC"
+	case strings.Contains(st, "Internal coding error"):
+		tag = "INTERNAL-CODING-ERROR"
+	}
+	return fmt.Sprintf("%s exit=%d stderr=%q", tag, code, short(firstLines(st, 3), 300))
+}
+
+func firstLines(s string, n int) string {
+	l := strings.SplitN(s, "\n", n+1)
+	if len(l) > n {
+		l = l[:n]
+	}
+	return strings.Join(l, "\n")
+}
+
+type limitedBuf struct {
+	bytes.Buffer
+	n   int64
+	max int64
+}
+
+func (b *limitedBuf) Write(p []byte) (int, error) {
+	b.n += int64(len(p))
+	if int64(b.Len()) < b.max {
+		k := int64(len(p))
+		if room := b.max - int64(b.Len()); k > room {
+			k = room
+		}
+		b.Buffer.Write(p[:k])
+	}
+	return len(p), nil
+}
+
+// ---------------------------------------------------------------- enumeration helpers
+
+// countUpTo is the number of strings of length <= L over k symbols.
+func countUpTo(k, L int) uint64 {
+	var n, p uint64 = 0, 1
+	for l := 0; l <= L; l++ {
+		n += p
+		p *= uint64(k)
+	}
+	return n
+}
+
+// nth returns the n-th string (as symbol indices) in the canonical order:
+// shorter first, then lexicographic by symbol index.
+func nth(k int, n uint64, buf []int) []int {
+	l := 0
+	p := uint64(1)
+	for n >= p {
+		n -= p
+		p *= uint64(k)
+		l++
+	}
+	buf = buf[:0]
+	for i := 0; i < l; i++ {
+		buf = append(buf, 0)
+	}
+	for i := l - 1; i >= 0; i-- {
+		buf[i] = int(n % uint64(k))
+		n /= uint64(k)
+	}
+	return buf
+}
+
+// ---------------------------------------------------------------- orchestrator
+
+type crashLabel struct {
+	mcase
+}
+
+func run(c *vf.Ctx) {
+	c.Rule = "every enumerated case is a distinct (configuration, input) pair by construction; a case is non-trivial when Miller got past option parsing and either emitted at least one record/printed value or rejected the input/program/arguments with a diagnostic (i.e. anything but an empty success); distinct_nontrivial counts those"
+	c.Assume("in-process execution (vf.RunMlr: climain.ParseCommandLine + stream.Stream, library os.Exit trapped) stands for the binary; every in-process violation is re-run against the plain mlr binary and that verdict is attached to the violation text")
+	c.Assume("a non-zero exit counts as the property's error path when stderr has a line starting with `mlr:`/`mlr `; `Internal coding error detected` aborts carry no `mlr:` line and are reported (group internal-coding-error[file:line], lower severity); other non-zero exits whose diagnostics lack the prefix are counted in evidence (nonzero-exit-without-mlr-prefix), not flagged")
+	c.Assume("hangs are decided by the pool: no case completing for 120 s (3 isolated re-runs must all stall) or output beyond 4 MiB for inputs of a few bytes; slowness alone is never a verdict")
+	c.Assume("functions excluded (host facts, shell-outs, clocks, unseeded randomness): system exec os hostname version urand urand32 urandint urandrange urandelement systime systimeint sysntime uptime upntime; statements with output redirection are excluded (they create files)")
+	c.Assume("the deliberate test token %%%panic%%% of the DSL grammar (panics by design when evaluated) is not part of the token alphabets")
+	c.Assume("reader formats asv/usv (csvlite with other separators), gen (no input bytes) and the --prepipe family (shell-outs) are not enumerated")
+
+	crash := func(idx uint64, label, kind, tail string) (string, string) {
+		var m mcase
+		cause := kind
+		if kind == "fatal" {
+			if i := strings.Index(tail, "fatal error:"); i >= 0 {
+				cause = "fatal:" + strings.ReplaceAll(strings.TrimSpace(firstLines(tail[i+12:], 1)), " ", "-")
+			}
+		} else if kind == "panic" {
+			cause = "panic-uncaught:" + panicSite(tail)
+		} else if strings.HasPrefix(kind, "exit:") {
+			cause = "worker-died:" + strings.ReplaceAll(strings.TrimPrefix(kind, "exit:"), " ", "-")
+		}
+		c.Exhaustive = false
+		c.Count("blocks_cut_short_by_worker_death", 1)
+		if json.Unmarshal([]byte(label), &m) != nil {
+			return fmt.Sprintf("crash[%s]:99999:unlabelled:case-index-%d", cause, idx), fmt.Sprintf("worker %s at case %d (no label): %s", kind, idx, short(tail, 400))
+		}
+		to := 60 * time.Second
+		if kind == "hang" {
+			to = 150 * time.Second
+		}
+		v := plainVerdict(&m, to)
+		what := fmt.Sprintf("worker %s (%s) while running: %s || plain binary: %s", kind, cause, m.shell(), v)
+		return "crash[" + cause + "]:" + m.keyTail(), what
+	}
+
+	t0 := time.Now()
+	stage := func(name string, spec vf.PoolSpec) *vf.PoolResult {
+		spec.CrashKey = crash
+		if spec.StallSecs == 0 {
+			spec.StallSecs = 120
+		}
+		t := time.Now()
+		r := c.RunPool(spec)
+		c.Extra["wall_s_"+name] = fmt.Sprintf("%.1f", time.Since(t).Seconds())
+		return r
+	}
+	only := os.Getenv("VERIF_C18_ONLY") // debugging aid: run a single stage
+	want := func(s string) bool { return only == "" || strings.Contains(","+only+",", ","+s+",") }
+	sets := map[string]map[string]bool{}
+	merge := func(r *vf.PoolResult) {
+		for k, m := range r.Sets {
+			if sets[k] == nil {
+				sets[k] = map[string]bool{}
+			}
+			for s := range m {
+				sets[k][s] = true
+			}
+		}
+	}
+	if want("ladders") {
+		merge(stage("ladders", vf.PoolSpec{Worker: "ladders", Shards: 64, StallSecs: 240}))
+	}
+	if want("funcs") {
+		merge(stage("funcs", vf.PoolSpec{Worker: "funcs", Shards: 128}))
+	}
+	if want("readers") {
+		merge(stage("readers", vf.PoolSpec{Worker: "readers", Shards: 128}))
+	}
+	if want("docs") {
+		merge(stage("docs", vf.PoolSpec{Worker: "docs", Shards: 64}))
+	}
+	if want("dsl") {
+		merge(stage("dsl", vf.PoolSpec{Worker: "dsl", Shards: 128}))
+	}
+	_ = t0
+
+	c.DistinctNontrivial = c.Counters["nontrivial"]
+	delete(c.Counters, "nontrivial")
+	for _, name := range []string{"reader-outcomes", "func-outcomes", "dsl-outcomes", "ladder-outcomes", "bare-error-texts", "func-vacuous-check"} {
+		if m := sets[name]; m != nil {
+			var l []string
+			for s := range m {
+				l = append(l, s)
+			}
+			sort.Strings(l)
+			if len(l) > 400 {
+				c.Extra[name+"_count"] = len(l)
+				l = l[:400]
+			}
+			c.Extra[name] = l
+		}
+	}
+	// per-family / per-symbol hit counts live in c.Counters (prefixes cases:, sym:, fn:, tok:, witness:)
+	reportVacuity(c, sets)
+	if only != "" {
+		c.Exhaustive = false
+		c.Extra["partial_run_only"] = only
+	}
+}
+
+// reportVacuity: a symbol / function / witness that was never exercised is a harness bug.
+func reportVacuity(c *vf.Ctx, sets map[string]map[string]bool) {
+	for k, v := range c.Counters {
+		if v == 0 && (strings.HasPrefix(k, "sym:") || strings.HasPrefix(k, "tok:") || strings.HasPrefix(k, "witness:")) {
+			c.Broken("vacuity: %s was never exercised", k)
+		}
+	}
+	if m := sets["fn-never-evaluated"]; len(m) > 0 {
+		var l []string
+		for s := range m {
+			l = append(l, s)
+		}
+		sort.Strings(l)
+		c.Extra["functions_never_past_build"] = l
+	}
+}
